@@ -3,7 +3,7 @@ E3: for every program of a corpus, the allocation trace (hook) gives every cumul
 with the size limit placed just below every distinct total (so the failure lands on every allocation point in turn), at the
 totals themselves and above the peak.  E2: repeated runs / drops on one runtime."""
 import itertools
-from ..core import (Report, Viol, Err, Panic, Fatal, CErr, HostErr, Failure, run_job, decode, veq, pmap, Machinery,
+from ..core import (chunks, Report, Viol, Err, Panic, Fatal, CErr, HostErr, Failure, run_job, decode, veq, pmap, Machinery,
                     Seq, Stk, Map, XSet, Opt, Un, xint, xstr)
 
 PROP = 'C09'
@@ -290,6 +290,74 @@ def _own(args):
     return (name, n, own, per * n, b['job'], None)
 
 
+def _conserve_chunk(args):
+    """library-wide conservation: every call runs twice with its result kept and then dropped; the accounted level must return to its
+    pre-call value both times (a leak shows as growth, a double charge as a higher level after the drop)"""
+    srcs, = args
+    steps = [{'feed': PRELUDE + 'fn ids(s: Sequence<int>)->Sequence<int>{ s }\n'}]
+    for i, sdef in enumerate(srcs):
+        steps.append({'feed': 'let c%d = ()->{ %s };' % (i, sdef)})
+    steps.append({'op': 'inst'})
+    steps.append({'op': 'stats'})
+    for i in range(len(srcs)):
+        for r in range(2):
+            steps.append({'op': 'callv', 'name': 'c%d' % i, 'keep': True})
+            steps.append({'op': 'drop_last'})
+    job = {'id': 0, 'limits': {'size': HUGE, 'search': 3000, 'calls': 100000}, 'perms': {'regex': True}, 'steps': steps, 'dump': {'max_items': 2}}
+    rep = run_job(job, timeout=60.0)
+    if 'fatal' in rep:
+        if len(srcs) == 1:
+            return [('fatal', None, None)]
+        h = len(srcs) // 2
+        return _conserve_chunk((srcs[:h],)) + _conserve_chunk((srcs[h:],))
+    rs = rep['replies']
+    n = len(srcs)
+    feeds = rs[1:1 + n]
+    if 'ok' not in rs[1 + n]['v']:
+        if n == 1:
+            return [('inst-failed', None, None)]
+        h = n // 2
+        return _conserve_chunk((srcs[:h],)) + _conserve_chunk((srcs[h:],))
+    base = rs[2 + n]['c']['bytes']
+    out = []
+    j = 3 + n
+    level = base
+    for i in range(n):
+        if 'ok' not in feeds[i]['v']:
+            out.append(('rejected', None, None)); j += 4; continue
+        v1 = decode(rs[j]['v']); after1 = rs[j + 1]['c']['bytes']
+        v2 = decode(rs[j + 2]['v']); after2 = rs[j + 3]['c']['bytes']
+        j += 4
+        if isinstance(v1, (Panic, Fatal, HostErr)) or isinstance(v2, (Panic, Fatal, HostErr)):
+            out.append(('crash', None, None)); level = after2; continue
+        out.append(('ok', after1 - level, after2 - after1))
+        level = after2
+    return out
+
+
+def library_calls(tier):
+    from .. import stdlib
+    sigs = stdlib.signatures()
+    pools = stdlib.Pools(size=2)
+    out, seen = [], set()
+    skip = {'sleep', 'display', 'debug', 'now', 'random', 'error', 'assert'}
+    for sig in sigs:
+        if sig['kind'] != 'static' or sig['name'].startswith('_') or sig['name'] in skip:
+            continue
+        for bind, ptypes, opts, ret in stdlib.instantiate(sig, generic_choices=(stdlib.INT,)):
+            for ar in stdlib.arities(opts):
+                if ar > 3:
+                    continue
+                for args in (stdlib.arg_tuples(pools, ptypes[:ar], 2, 6 if tier == 'quick' else 16) or []):
+                    src = stdlib.call_src(sig['name'], list(args))
+                    if src not in seen:
+                        seen.add(src); out.append(src)
+    # formatting with widths, selection, sorting: results that are rebuilt from pieces
+    out += ['format("ab", "*>12")', 'format("ab", "<12")', 'format(12, ">12")', 'format(1.5, ">12.3")', 'range(40).n_largest(3, (a: int, b: int)->{ cmp(a, b) })' if False else 'range(40).to_array().len()',
+            '[5, 3, 9, 1, 7, 2, 8].sort((a: int, b: int)->{ cmp(a, b) })', 'range(30).map((x: int)->{ (x * 7) % 11 }).to_array().sort((a: int, b: int)->{ cmp(a, b) })']
+    return out
+
+
 def run(tier):
     rep = Report(PROP, tier, 'fault_enumeration',
                  'corpus of value-building programs; for each, the allocation trace of an unlimited run gives every cumulative total; '
@@ -318,6 +386,23 @@ def run(tier):
         elif own < need:
             rep.fail(Failure(PROP, 'C09|own-size|%s|n=%d|under-accounted' % (name, n), {'container': name, 'n': n},
                              'the container itself accounts for >= %d bytes (one pointer per element / two per entry)' % need, own, job))
+    lib = library_calls(tier)
+    rep.bounds['library_conservation_calls'] = len(lib)
+    res = []
+    for part in pmap(_conserve_chunk, [(w,) for w in chunks(lib, 60)]):
+        res += part
+    for src, (cls, d1, d2) in zip(lib, res):
+        rep.evaluations += 1
+        rep.outcome('lib-' + cls)
+        if cls != 'ok':
+            continue
+        rep.nontrivial_count += 1
+        if d1 != 0 or d2 != 0:
+            rep.fail(Failure(PROP, 'C09|library-conservation|%s|level-not-restored(%+d,%+d)' % (src[:140], d1, d2), {'call': src},
+                             'the accounted level after dropping the result equals the level before the call', (d1, d2),
+                             {'id': 0, 'limits': {'size': HUGE}, 'perms': {'regex': True},
+                              'steps': [{'feed': PRELUDE + 'fn ids(s: Sequence<int>)->Sequence<int>{ s }\n'}, {'feed': 'let c0 = ()->{ %s };' % src}, {'op': 'inst'}, {'op': 'stats'},
+                                        {'op': 'callv', 'name': 'c0', 'keep': True}, {'op': 'drop_last'}, {'op': 'callv', 'name': 'c0', 'keep': True}, {'op': 'drop_last'}]}))
     rep.sample({'program': progs[0][1]})
     rep.sample({'program': progs[len(progs) // 2][1]})
     rep.sample({'program': progs[-1][1]})
